@@ -18,10 +18,7 @@ Theorem c20_monotone_refuted_close_window :
   exists nclose sch,
     let s := run (init nclose) sch in
     monotone s = false /\ hist s = [Closed; Closing] /\ rs s = Closing /\ pc_done s = true.
-Proof.
-  exists 1, [4; 4; 1; 4]. cbv zeta.
-  destruct refuted_close_window as (H1 & H2 & H3 & H4). repeat split; assumption.
-Qed.
+Proof. exact refuted_close_window_ex. Qed.
 Print Assumptions c20_monotone_refuted_close_window.
 
 (* handleOpen passes its isGracefulClosed check, Close runs completely
@@ -30,18 +27,13 @@ Theorem c20_monotone_refuted_open_window :
   exists nclose sch,
     let s := run (init nclose) sch in
     monotone s = false /\ hist s = [Closing; Open] /\ rs s = Open /\ rl_started s = false.
-Proof.
-  exists 1, [0; 4; 4; 4; 0]. cbv zeta.
-  destruct refuted_open_window as (H1 & H2 & H3 & H4). repeat split; assumption.
-Qed.
+Proof. exact refuted_open_window_ex. Qed.
 Print Assumptions c20_monotone_refuted_open_window.
 
 (* the same window against PeerConnection.Close: closed -> open *)
 Theorem c20_monotone_refuted_open_after_pcclose :
   exists sch, let s := run (init 0) sch in monotone s = false /\ hist s = [Closed; Open].
-Proof.
-  exists [0; 1; 0]. cbv zeta. destruct refuted_open_after_pcclose as (H1 & H2). auto.
-Qed.
+Proof. exact refuted_open_after_pcclose_ex. Qed.
 Print Assumptions c20_monotone_refuted_open_after_pcclose.
 
 (* no race needed: Close while connecting, then the channel opens (OnClose
@@ -52,11 +44,7 @@ Theorem c20_closed_refuted :
     let s := run (init 1) sch in
     closers s = [CDone] /\ o_pc s = ODone /\ gone s = true /\ step s 3 = None /\
     close_calls s = 1 /\ rs s = Closing.
-Proof.
-  exists [4; 4; 4; 0; 2; 3]. cbv zeta.
-  destruct refuted_never_closed as (H1 & H2 & H3 & H4 & H5 & H6 & H7).
-  repeat split; assumption.
-Qed.
+Proof. exact refuted_never_closed_ex. Qed.
 Print Assumptions c20_closed_refuted.
 
 (* with the two check-then-set windows atomic and handleOpen not after
